@@ -54,6 +54,42 @@ CLAIMED = {
     note="Runs are threads in one interpreter (process boundary is a stub); "
          "expected text derived from a solo run by index substitution; only "
          "psy.gen runs under the scheduler."),
+ "C09": dict(
+    engine="E3-ompsim",
+    technique="deterministic simulation: generated OpenMP code executed by "
+              "an in-process OpenMP run-time simulator under seeded thread "
+              "schedules, thread counts and schedule kinds, undefined "
+              "(poisoned) private storage as the injected fault",
+    text="Seeded programs go through the real OMP loop/parallel "
+         "transformations (no force); every accepted, lowered program is "
+         "executed by a simulated team of 1-8 threads under static/dynamic/"
+         "guided schedules, five scheduler policies (incl. reverse-order and "
+         "round-robin that maximise reordering) and three pre-emption "
+         "granularities, with private storage poisoned; every shared array "
+         "and non-privatised scalar must equal the serial run at region end. "
+         "Violations are minimised (program, inputs, threads, schedule) and "
+         "classified by root-cause features against four open known "
+         "findings. Sampling, not proof.",
+    design_ref="DESIGN.md 4.2",
+    note="Trusts the PSyIR interpreter (validated against gfortran on 300 "
+         "serial programs) and the OpenMP model of Appendix A; regions hold "
+         "worksharing loops only."),
+ "C08": dict(
+    engine="E3-itertasks",
+    technique="deterministic simulation: iterations of every loop the real "
+              "analysis calls independent run as tasks in serial/reversed/"
+              "seeded order with access tracing; Bernstein check over the "
+              "recorded history; bounded-step liveness",
+    text="For every loop at every nest level of seeded programs the real "
+         "DependencyTools answer is taken; loops reported independent are "
+         "executed with per-iteration access recording under three iteration "
+         "orders and checked for two iterations touching one location with a "
+         "write (scalar exemption as stated). The analysis must answer within "
+         "20M interpreter line events. Sampling, not proof.",
+    design_ref="DESIGN.md 4.3",
+    note="Dynamic traces for n<=8 and seeded inputs only; the schedule "
+         "dimension is thin when control flow is data independent (said so "
+         "in DESIGN)."),
 }
 
 NOT_APPLICABLE = {
@@ -124,6 +160,9 @@ def main():
             {"name": "E1-fsrace", "path": "simkit/fsrace.py, checks/c29.py",
              "serves_properties": ["C29"],
              "kind_free_text": "baton-passing real threads + os/io/builtins shims; seeded scheduler and fault injector"},
+            {"name": "E3-ompsim", "path": "simkit/fgen.py, simkit/interp.py, checks/c09.py, checks/c08.py",
+             "serves_properties": ["C09", "C08"],
+             "kind_free_text": "program generator + PSyIR interpreter + OpenMP run-time simulator with seeded scheduler"},
             {"name": "E2-history", "path": "checks/c14.py, checks/c16.py, checks/c15.py",
              "serves_properties": ["C14", "C16", "C15"],
              "kind_free_text": "seeded operation histories against a reference model; refusals as faults; ddmin"},
